@@ -190,13 +190,14 @@ def cli_diags_for_state(st, texts, nuri=2):
             if f is None:
                 unloc.append(code)
                 continue
-            # like the server, a diagnostic belongs to every file one of its labels names; its position is
-            # that of the primary label
+            # like the server, a diagnostic belongs to every file one of its labels names; for a file its position is
+            # that of the (first) label that lies in THAT file - a position in another file's text says nothing about it
             hit = False
-            for lf in set(os.path.basename(x[0]) for x in locs):
+            for lf in sorted(set(os.path.basename(x[0]) for x in locs)):
                 u = names.get(lf)
                 if u is not None:
-                    per[u].append((code, line - 1, col - 1))
+                    here = [x for x in locs if os.path.basename(x[0]) == lf]
+                    per[u].append((code, here[0][1] - 1, here[0][2] - 1))
                     hit = True
             if not hit:
                 unloc.append(code)
